@@ -349,8 +349,14 @@ def fSortNatural (left key : Val) : R :=
       .ok (.list (sortBy (fun a b => strLt ((lowerKey a).getD []) ((lowerKey b).getD [])) (seqOf left)))
     else .error .unmodelled
 
+/-- `_str_if_not(item)`; the error is "outside the model" (list/dict repr) -/
+def strItem (v : Val) : Except Unit Str :=
+  match pyStr v with
+  | some s => .ok s
+  | none => .error ()
+
 def fJoin (left sep : Val) : R :=
-  match pyStr sep, mapM' (fun v => match pyStr v with | some s => Except.ok s | none => Except.error ()) (seqOf left) with
+  match pyStr sep, mapM' strItem (seqOf left) with
   | some sp, .ok ss => .ok (.str (joinStr sp ss))
   | _, _ => .error .unmodelled
 
